@@ -44,6 +44,7 @@ QUICK = [
     (130, [[MS(60, 3, 2)], [H], [RB(63)]]),
     (130, [[SR(127, 2)], [H], [SR(126, 3)]]),
     (130, [[SR(128, 5)], [H]]),          # runs past the end of the bitmap
+    (130, [[SB(5), SB(70)], [RB(40), RB(100)], [H]]),    # clearing one page must not touch lower pages of its word
 ]
 THOROUGH = QUICK + [
     (130, [[SR(62, 3), SB(0)], [H, SB(64), H]]),
